@@ -135,16 +135,16 @@ impl ExportPlugin {
         }
 
         let recorded_time_from = match &config.get("recordedTimeFromMs") {
-            Some(serde_json::Value::Number(n)) => Some(n.as_u64().unwrap_or(0) * 1000),
+            Some(serde_json::Value::Number(n)) => Some(n.as_u64().unwrap_or(0).saturating_mul(1000)),
             Some(serde_json::Value::String(n)) if n.ends_with('n') => {
-                Some(n[..n.len() - 1].parse::<u64>().unwrap_or(0) * 1000)
+                Some(n[..n.len() - 1].parse::<u64>().unwrap_or(0).saturating_mul(1000))
             }
             _ => None,
         };
         let recorded_time_to = match &config.get("recordedTimeToMs") {
-            Some(serde_json::Value::Number(n)) => Some(n.as_u64().unwrap_or(0) * 1000),
+            Some(serde_json::Value::Number(n)) => Some(n.as_u64().unwrap_or(0).saturating_mul(1000)),
             Some(serde_json::Value::String(n)) if n.ends_with('n') => {
-                Some(n[..n.len() - 1].parse::<u64>().unwrap_or(0) * 1000)
+                Some(n[..n.len() - 1].parse::<u64>().unwrap_or(0).saturating_mul(1000))
             }
             _ => None,
         };
